@@ -133,6 +133,17 @@ pub(crate) fn uf_pll127(f: u32) -> u32 {
     uf_pll(f)
 }
 
+/// Keep every byte of the read script in the cone of influence of some property: the replay of a
+/// counterexample is generated from the *sliced* formula (DESIGN 9.14), which drops nondet values
+/// no property depends on and would leave the playback test with too few values.  No loop.
+pub(crate) fn retain_script(s: &[[u8; MAXRB]; MAXT]) {
+    let w: [u32; MAXRB * MAXT / 4] = unsafe { core::mem::transmute(*s) };
+    macro_rules! x { ($($i:expr),*) => { 0u32 $(^ w[$i])* }; }
+    let t = x!(0, 1, 2, 3, 4, 5, 6, 7, 8, 9, 10, 11, 12, 13, 14, 15, 16, 17, 18, 19, 20, 21, 22, 23,
+               24, 25, 26, 27, 28, 29, 30, 31, 32, 33, 34, 35, 36, 37, 38, 39, 40, 41, 42, 43, 44, 45, 46, 47,
+               48, 49, 50, 51, 52, 53, 54, 55, 56, 57, 58, 59, 60, 61, 62, 63, 64, 65, 66, 67, 68, 69, 70, 71);
+    kani::cover!(t != 0x6C72_7601, "info: read script retained for the replay");
+}
 pub(crate) struct MockSpi;
 
 impl MockSpi {
@@ -141,6 +152,7 @@ impl MockSpi {
         let l = spi();
         l.n = 0;
         l.script = kani::any();
+        retain_script(&l.script);
         l.fail_at = usize::MAX;
         l.probe = kani::any();
         l.big_j = kani::any();
